@@ -291,49 +291,104 @@ func extractReader(w *World, pkg *ssa.Package) (*readerTable, []string) {
 	if len(flush) == 0 {
 		infra("R-AUTOMATON: no site appends the pending element to the result in readDiff")
 	}
-	// header cell: string cell assigned a one-character prefix slice
+	// header: the one-character prefix slice of the line, either held in a
+	// cell (when a closure captures it) or used as a plain value
 	var headerCell, errCell *ssa.Alloc
+	var headerVal *ssa.Slice
 	var allow *ssa.Function
 	allInstrs(fn, func(in ssa.Instruction) {
 		switch x := in.(type) {
-		case *ssa.Store:
-			if sl, ok := x.Val.(*ssa.Slice); ok && sl.High != nil {
-				if k, ok := constInt(sl.High); ok && k == 1 {
-					if a, ok := x.Addr.(*ssa.Alloc); ok {
+		case *ssa.Slice:
+			if x.High == nil {
+				return
+			}
+			if k, ok := constInt(x.High); !ok || k != 1 {
+				return
+			}
+			if x.Low != nil {
+				if k, ok := constInt(x.Low); !ok || k != 0 {
+					return
+				}
+			}
+			if b, ok := x.X.Type().Underlying().(*types.Basic); !ok || b.Info()&types.IsString == 0 {
+				return
+			}
+			headerVal = x
+			for _, ref := range *x.Referrers() {
+				if st, ok := ref.(*ssa.Store); ok && st.Val == ssa.Value(x) {
+					if a, ok := st.Addr.(*ssa.Alloc); ok {
 						headerCell = a
 					}
 				}
 			}
 		case *ssa.MakeClosure:
-			allow = x.Fn.(*ssa.Function)
 			for _, b := range x.Bindings {
 				if a, ok := b.(*ssa.Alloc); ok && isErrorType(a.Type().(*types.Pointer).Elem()) {
 					errCell = a
+					allow = x.Fn.(*ssa.Function)
 				}
 			}
 		}
 	})
-	if headerCell == nil || errCell == nil || allow == nil {
-		infra("R-AUTOMATON: cannot identify header / transition error / allow closure in readDiff")
+	if headerVal == nil {
+		infra("R-AUTOMATON: cannot identify the line header (a one-character prefix of the line) in readDiff")
 	}
-	// the allow closure is a membership test: its only store is a non-nil
-	// error into the error cell, and the early return is guarded by
-	// element == header
-	okAllow := false
-	nStores := 0
-	allInstrs(allow, func(in ssa.Instruction) {
-		if st, ok := in.(*ssa.Store); ok {
-			if _, isFree := st.Addr.(*ssa.FreeVar); !isFree {
+	isHeaderLoad := func(v ssa.Value) bool {
+		if v == ssa.Value(headerVal) {
+			return true
+		}
+		u, ok := v.(*ssa.UnOp)
+		return ok && headerCell != nil && u.Op == token.MUL && u.X == ssa.Value(headerCell)
+	}
+	// the transition validator, idiom B: membership of the header in a constant
+	// table indexed by the state — slices.Contains(table[state], header) or
+	// strings.Contains(table[state], header)
+	var memberCall *ssa.Call
+	var memberSets map[int64]map[string]bool
+	if allow == nil {
+		allInstrs(fn, func(in ssa.Instruction) {
+			c, ok := in.(*ssa.Call)
+			if !ok || len(c.Call.Args) != 2 || !isHeaderLoad(c.Call.Args[1]) {
 				return
 			}
-			nStores++
-			if c, ok := st.Val.(*ssa.Call); ok && calleeFullName(c) == "fmt.Errorf" {
-				okAllow = true
+			name := calleeFullName(c)
+			byChar := false
+			switch {
+			case strings.HasPrefix(name, "slices.Contains"):
+			case name == "strings.Contains":
+				byChar = true
+			default:
+				return
 			}
+			sets := stateTable(c.Call.Args[0], statePhi, byChar)
+			if sets != nil {
+				memberCall, memberSets = c, sets
+			}
+		})
+	}
+	if allow == nil && memberCall == nil {
+		infra("R-AUTOMATON: cannot identify the transition validator in readDiff (neither a closure storing into an error cell nor a membership test of the header in a table indexed by the state)")
+	}
+	// idiom A: the allow closure is a membership test: its only store is a non-nil
+	// error into the error cell, and the early return is guarded by
+	// element == header
+	if allow != nil {
+		okAllow := false
+		nStores := 0
+		allInstrs(allow, func(in ssa.Instruction) {
+			if st, ok := in.(*ssa.Store); ok {
+				if _, isFree := st.Addr.(*ssa.FreeVar); !isFree {
+					return
+				}
+				nStores++
+				if c, ok := st.Val.(*ssa.Call); ok && calleeFullName(c) == "fmt.Errorf" {
+					okAllow = true
+				}
+			}
+		})
+		if !okAllow || nStores != 1 {
+			problems = append(problems, "the transition validator closure is no longer a plain membership test (one store of fmt.Errorf into the error cell)")
 		}
-	})
-	if !okAllow || nStores != 1 {
-		problems = append(problems, "the transition validator closure is no longer a plain membership test (one store of fmt.Errorf into the error cell)")
 	}
 	// state constants
 	stateSet := map[int64]bool{}
@@ -371,10 +426,6 @@ func extractReader(w *World, pkg *ssa.Package) (*readerTable, []string) {
 	sort.Slice(rt.states, func(i, j int) bool { return rt.states[i] < rt.states[j] })
 	// header alphabet: constants compared with the header + "other"
 	hset := map[string]bool{}
-	isHeaderLoad := func(v ssa.Value) bool {
-		u, ok := v.(*ssa.UnOp)
-		return ok && u.Op == token.MUL && u.X == ssa.Value(headerCell)
-	}
 	allInstrs(fn, func(in ssa.Instruction) {
 		if bo, ok := in.(*ssa.BinOp); ok && bo.Op == token.EQL && isHeaderLoad(bo.X) {
 			if s, ok := constString(bo.Y); ok {
@@ -386,16 +437,8 @@ func extractReader(w *World, pkg *ssa.Package) (*readerTable, []string) {
 	for _, s := range rt.states {
 		rt.allowed[s] = nil
 	}
-	bodyEntry := (*ssa.BasicBlock)(nil)
-	// body entry: the block that computes the header (stores into headerCell)
-	for _, ref := range *headerCell.Referrers() {
-		if st, ok := ref.(*ssa.Store); ok {
-			bodyEntry = st.Block()
-		}
-	}
-	if bodyEntry == nil {
-		infra("R-AUTOMATON: no store into the header cell")
-	}
+	// body entry: the block that computes the header
+	bodyEntry := headerVal.Block()
 	for h2 := range hset {
 		rt.headers = append(rt.headers, h2)
 	}
@@ -414,10 +457,19 @@ func extractReader(w *World, pkg *ssa.Package) (*readerTable, []string) {
 		// which allow call is reachable for this state (before the error test)
 		reach, _ := reachPruned(bodyEntry, stateKnown, loop.Header)
 		var allowedSet map[string]bool
+		if memberCall != nil {
+			allowedSet = memberSets[s]
+			if allowedSet == nil {
+				allowedSet = map[string]bool{}
+			}
+			if !reach[memberCall.Block()] {
+				allowedSet = nil // the membership test is not on this state's path: nothing is rejected by it
+			}
+		}
 		for b := range reach {
 			for _, in := range b.Instrs {
 				c, ok := in.(*ssa.Call)
-				if !ok {
+				if !ok || allow == nil {
 					continue
 				}
 				if mc, ok := c.Call.Value.(*ssa.MakeClosure); !ok || mc.Fn != ssa.Value(allow) {
@@ -458,6 +510,9 @@ func extractReader(w *World, pkg *ssa.Package) (*readerTable, []string) {
 				if v, k := stateKnown(cond); k {
 					return v, true
 				}
+				if memberCall != nil && cond == ssa.Value(memberCall) {
+					return !rejectedByAllow, true
+				}
 				if bo, ok := cond.(*ssa.BinOp); ok && (bo.Op == token.EQL || bo.Op == token.NEQ) {
 					if isHeaderLoad(bo.X) {
 						if str, ok := constString(bo.Y); ok {
@@ -465,7 +520,7 @@ func extractReader(w *World, pkg *ssa.Package) (*readerTable, []string) {
 						}
 					}
 					// transitionErr != nil
-					if u, ok := bo.X.(*ssa.UnOp); ok && u.Op == token.MUL && u.X == ssa.Value(errCell) && isNilConst(bo.Y) {
+					if u, ok := bo.X.(*ssa.UnOp); ok && errCell != nil && u.Op == token.MUL && u.X == ssa.Value(errCell) && isNilConst(bo.Y) {
 						return rejectedByAllow == (bo.Op == token.NEQ), true
 					}
 				}
@@ -845,7 +900,7 @@ func extractWriter(w *World, pkg *ssa.Package) (*writerTable, []string) {
 	headerOf := func(l *Loop, void, merge bool) string {
 		known := func(cond ssa.Value) (bool, bool) {
 			if c, ok := cond.(*ssa.Call); ok {
-				if sf := staticCallee(c); sf != nil && sf.Name() == "isVoid" {
+				if sf := staticCallee(c); sf != nil && w.helperIs(sf, "isVoid") {
 					return void, true
 				}
 			}
@@ -1354,6 +1409,174 @@ func writtenLiterals(c *ssa.Call) []string {
 		if writes {
 			out = append(out, s)
 		}
+	}
+	return out
+}
+
+// stateTable resolves v = table[state] where table is a constant table of
+// string sets built in the function (array / slice / map literal of string
+// slices, or of strings when byChar) and returns state → set; nil when v is
+// not such a lookup.
+func stateTable(v ssa.Value, statePhi *ssa.Phi, byChar bool) map[int64]map[string]bool {
+	isState := func(x ssa.Value) bool {
+		for {
+			if c, ok := x.(*ssa.Convert); ok {
+				x = c.X
+				continue
+			}
+			if c, ok := x.(*ssa.ChangeType); ok {
+				x = c.X
+				continue
+			}
+			break
+		}
+		return x == ssa.Value(statePhi)
+	}
+	var tbl ssa.Value
+	switch x := v.(type) {
+	case *ssa.UnOp:
+		if x.Op != token.MUL {
+			return nil
+		}
+		ia, ok := x.X.(*ssa.IndexAddr)
+		if !ok || !isState(ia.Index) {
+			return nil
+		}
+		tbl = ia.X
+	case *ssa.Index:
+		if !isState(x.Index) {
+			return nil
+		}
+		tbl = x.X
+	case *ssa.Lookup:
+		if !isState(x.Index) || x.CommaOk {
+			return nil
+		}
+		tbl = x.X
+	default:
+		return nil
+	}
+	entry := func(val ssa.Value) (map[string]bool, bool) {
+		set := map[string]bool{}
+		if byChar {
+			s, ok := constString(val)
+			if !ok {
+				return nil, false
+			}
+			for _, r := range s {
+				set[string(r)] = true
+			}
+			return set, true
+		}
+		sl, ok := val.(*ssa.Slice)
+		if !ok {
+			if isNilConst(val) {
+				return set, true
+			}
+			return nil, false
+		}
+		a, ok := sl.X.(*ssa.Alloc)
+		if !ok {
+			return nil, false
+		}
+		for _, ref := range *a.Referrers() {
+			switch r := ref.(type) {
+			case *ssa.IndexAddr:
+				for _, r2 := range *r.Referrers() {
+					st, ok := r2.(*ssa.Store)
+					if !ok {
+						return nil, false
+					}
+					str, ok := constString(st.Val)
+					if !ok {
+						return nil, false
+					}
+					set[str] = true
+				}
+			case *ssa.Slice:
+			default:
+				return nil, false
+			}
+		}
+		return set, true
+	}
+	out := map[int64]map[string]bool{}
+	// peel a slice of a backing array / a load of a local cell holding the table
+	for {
+		if sl, ok := tbl.(*ssa.Slice); ok {
+			tbl = sl.X
+			continue
+		}
+		break
+	}
+	switch t := tbl.(type) {
+	case *ssa.Alloc:
+		var fill func(a *ssa.Alloc, depth int) bool
+		fill = func(a *ssa.Alloc, depth int) bool {
+			for _, ref := range *a.Referrers() {
+				switch r := ref.(type) {
+				case *ssa.IndexAddr:
+					k, isK := constInt(r.Index)
+					for _, r2 := range *r.Referrers() {
+						st, ok := r2.(*ssa.Store)
+						if !ok {
+							continue // the lookup itself (a load)
+						}
+						if !isK {
+							return false
+						}
+						set, ok := entry(st.Val)
+						if !ok {
+							return false
+						}
+						out[k] = set
+					}
+				case *ssa.Store:
+					// whole-array initialisation from a composite literal: *a = *lit
+					if r.Addr != ssa.Value(a) {
+						return false
+					}
+					u, ok := r.Val.(*ssa.UnOp)
+					if !ok || u.Op != token.MUL || depth > 1 {
+						return false
+					}
+					lit, ok := u.X.(*ssa.Alloc)
+					if !ok || !fill(lit, depth+1) {
+						return false
+					}
+				case *ssa.Slice, *ssa.UnOp, *ssa.DebugRef:
+				default:
+					return false
+				}
+			}
+			return true
+		}
+		if !fill(t, 0) {
+			return nil
+		}
+	case *ssa.MakeMap:
+		for _, ref := range *t.Referrers() {
+			switch r := ref.(type) {
+			case *ssa.MapUpdate:
+				k, isK := constInt(r.Key)
+				if !isK {
+					return nil
+				}
+				set, ok := entry(r.Value)
+				if !ok {
+					return nil
+				}
+				out[k] = set
+			case *ssa.Lookup:
+			default:
+				return nil
+			}
+		}
+	default:
+		return nil
+	}
+	if len(out) == 0 {
+		return nil
 	}
 	return out
 }
